@@ -17,7 +17,7 @@ CHECKS = {
              'integer result reduced into the class range, for all operand values within the stated bounds. '
              'Bounded model checking of straight-line code: the bound is on plain-int magnitudes, shift counts and exponents.',
         note='Trusted: z3 5.1.0; the SInt proxy (differentially tested against Python ints); CPython int semantics. '
-             'Bounds: plain-int operands and constructor arguments |v| <= 2^(n+3); shift counts 0..2n; divisor != 0; exponents 0..3.',
+             'Bounds: plain-int operands and constructor arguments |v| <= 2^(n+3); shift counts 0..2n; divisor != 0; a ** e with a symbolic exponent 0 <= e <= 2^n at 1 and 8 bits (plain integer or same class; wider classes: concrete exponents 0..3 only - z3 flattens the nested products of square-and-multiply).',
         design='5/C14', engine='E2'),
     'C18': dict(
         level='model_checking',
@@ -26,7 +26,7 @@ CHECKS = {
              're-encoder is explored (all 64 primary opcodes = all 2^32 words, in both tiers); '
              'on each path the solver proves: at most one class claims the word, and bin() == word for every word of the path. '
              'Mnemonic-vs-architecture and the render/assemble text fixpoint are decided at witnesses only (path witness vs llvm-mc; '
-             'smallest and largest word of each path through str()/asm()) and are labelled so.',
+             'smallest and largest word of each path through str()/asm(), plus a sweep of every variable field of <= 10 bits of every class over all its values) and are labelled so.',
         note='Trusted: z3, the SInt proxy, llvm-mc 14 as arbiter of mnemonics at witnesses (alias table in c18.py). '
              'Text clause is witness-level, not for every word.',
         design='5/C18', engine='E2'),
@@ -63,8 +63,8 @@ CHECKS = {
         text='Equality laws (reflexive, symmetric, transitive, != is the negation, e==f => hash(e)==hash(f)) on 18 node builders covering all eight node classes with '
              'symbolic sizes, slice/compose bounds and constants, plus concrete one-field perturbations; hash of an integer is an uninterpreted function of its value. '
              'copy()/visit(identity) equal the original and copy shares no node. Value clauses with symbolic constants: e==f implies equal value, canonize() preserves E1 value, '
-             'replace_expr({s:r}) equals a reference tree substitution under E1 for every sub-expression s.',
-        note='Trusted: z3, SInt proxy, E1, CPython str hash. Bounds: sizes 1..128, bounds 0..64, depth <= 2 shapes, singleton replacement maps.',
+             'replace_expr({s:r}) equals a reference tree substitution under E1 for every sub-expression s; maps of two entries over pairs of disjoint, provably different sub-expressions (fresh identifiers, reversed insertion order, replacements that mention the other key, exchange of the two sub-terms) equal the reference SIMULTANEOUS substitution.',
+        note='Trusted: z3, SInt proxy, E1, CPython str hash. Bounds: sizes 1..128, bounds 0..64, depth <= 2 shapes, replacement maps of size 1 (every sub-expression) and 2 (<= 6 pairs per shape quick / 20 thorough).',
         design='5/C15', engine='E2+E1'),
     'C06': dict(
         level='translation_validation',
@@ -72,12 +72,12 @@ CHECKS = {
         text='Per (expression shape, binding kind per identifier, binding kind of its memory cells): the real eval_expr runs on symbolic constants in a state binding identifiers '
              'and exact-address memory cells to symbolic constants / expressions / nothing; on every path the solver proves E1(result) = E1(reference simultaneous substitution) for all '
              'valuations of the free symbols and all constants, the same width, and that all-constant inputs give an ExprInt. Exceptions other than the documented ValueError are violations keyed by operator.',
-        note='Trusted: z3, SInt proxy, E1 incl. x86 helper operators, the 40-line reference substitution. Bounds: templates + depth-1 shapes + lifter operators; widths 32/8 (quick), 8..64 (thorough); overlap is C07.',
+        note='Trusted: z3, SInt proxy, E1 incl. x86 helper operators, the 40-line reference substitution. Bounds: templates + depth-1 shapes + lifter operators; widths 32/8 plus the n-ary arithmetic shapes at 16/64 (quick), 8..64 (thorough); overlap is C07.',
         design='5/C06', engine='E2+E1'),
     'C07': dict(
         level='translation_validation',
         technique='symbolic execution of the real eval_instr/eval_expr memory model with symbolic store/load offsets (E2) + SMT equality with an array store chain (E1, z3)',
-        text='Memory histories: 1-2 stores (3 in thorough) through the real eval_instr at base+offset with SYMBOLIC offsets, then a load through the real eval_expr; on every path '
+        text='Memory histories: 1-2 stores (3 in thorough; in both tiers 3 stores for six width mixes with the last, wider store at the first store\'s address) through the real eval_instr at base+offset with SYMBOLIC offsets, then a load through the real eval_expr; on every path '
              'the solver proves (a) the pool denotes the same byte array as the sequential store chain (for an arbitrary probe address, no two cells overlap) and (b) E1(load) equals the load '
              'on the store chain - for all offsets of the path, all stored values, all initial memory, base constant or symbolic register.',
         note='Trusted: z3 (arrays + bit-vectors), SInt proxy, E1. Bounds: widths 8/16/32, first store at base+8, other offsets in a window of 12-23 bytes; '
@@ -91,7 +91,7 @@ CHECKS = {
              'into a concrete two-call history and replayed. (a) frame condition on every path incl. raising ones: arguments, machine state and other machines structurally unchanged. '
              '(c) dis / lift / asm: per path of the symbolic decoder exploration, the same symbolic bytes are decoded and lifted twice around a fixed interleaving of other calls (other decodes incl. a truncated one, assemblies incl. raising ones): '
              'the second instruction and assignment list equal the first for all byte values (SMT), the byte container and the instruction object are unchanged, and a deep fingerprint of the opcode trie, mnemonic objects, ModRM/SIB, register and lifter tables is unchanged after every row; '
-             'the same for asm(line) with symbolic numbers; at every path witness (concrete, labelled so) the instruction is rendered twice in both syntaxes: equal texts, instruction object unchanged. Not addressed: on-disk PLY parser tables, general histories up to 50 calls.',
+             'the same for asm(line) with symbolic numbers; history pairs: a first line introduces an operand text never printed before in the process (fresh numerals for the symbolic number), a second, different instruction with the same operand text must give exactly the candidates it gives on an operand text of its own, for all values of the number (49 first lines x 6 operand texts x 2-4 second lines); at every path witness (concrete, labelled so) the instruction is rendered twice in both syntaxes: equal texts, instruction object unchanged. Not addressed: on-disk PLY parser tables, general histories up to 50 calls.',
         note='Trusted: z3, SInt proxy, the admissibility predicate for memo flags (stated in evidence bounds). Clauses about the parser-table cache directory and CPython heap aliasing are outside the claim.',
         design='5/C12', engine='E2'),
     'C17': dict(
@@ -154,7 +154,7 @@ CHECKS = {
         level='model_checking',
         technique='symbolic execution of the real x86 assembler on pairs of spellings of one line with shared symbolic numbers; candidate-set equality proved per joint path (z3)',
         text='For each line class and each respelling (letter case, white space, optional %, st vs st(0), negative spelling and n + k*2^32, reordered memory terms, displacement outside brackets, AT&T transliteration, hexadecimal spellings 0x / 0X with lower / upper case digits of the placeholder numeral, which the real lexer converts before it is mapped back to the symbolic number) both spellings go through the real parser and encoder '
-             'with the SAME symbolic numbers; on every joint path the two candidate lists must be equal as sets of byte strings for all number values.',
+             'with the SAME symbolic numbers; on every joint path the two candidate lists must be equal as sets of byte strings for all number values. Prelude pairs: the same equality after another instruction has introduced spelling A\'s operand text (first use in the process).',
         note='Trusted: z3, proxies, the respelling generator (vf/checks/c19.py). Bounds: <= 3 operands, numbers in [0, 2^32), SIB families listed in evidence.',
         design='5/C19', engine='E2'),
     'C09': dict(
@@ -163,7 +163,7 @@ CHECKS = {
         text='Partial claim (the miasmX-parser clause). On every path of the symbolic decoder exploration both renderings of the decoded instruction are produced by the real printer with every immediate / displacement symbolic, '
              'each is fed to the matching real parser (asm / asm_att) and the original bytes must be among the candidates for ALL byte values of the path - so operand order, size suffixes, sigils, memory layout and the fsub/fdiv reversal are exercised. '
              'A miss is reported only for canonical encodings: the objdump text of the original bytes at the witness, assembled by GNU as, yields exactly those bytes (a criterion that does not look at the rendering under test). Arbiter level (labelled): at one witness per operand shape, for instructions a compiler emits, GNU as must accept the rendering in the matching syntax mode and objdump must read its encoding as the same instruction as the original bytes.',
-        note='Trusted: z3, proxies, render mode (core.render_number; digit-string <-> integer conversion not modelled), GNU as 2.40 as canonicity filter. Bounds: thin ModRM slice, prefix sets (), (66) [+ (67) thorough], quick samples rows by seed.',
+        note='Trusted: z3, proxies, render mode (core.render_number; digit-string <-> integer conversion not modelled), GNU as 2.40 as canonicity filter. Bounds: thin ModRM slice, prefix sets (), (66) [+ (67) thorough]; quick: a core list + 30 sampled rows in the thin slice, every other row under () and (66) in the thinnest slice.',
         design='5/C09 + 9', engine='E2'),
     'C10': dict(
         level='model_checking',
